@@ -18,7 +18,7 @@ func customCorpus(e *core.Env, n int, prefix string, mod func(i int, o *pgen.Cus
 	r := rand.New(rand.NewSource(e.Seed*15485863 + 6))
 	var cases []*pgen.Case
 	for i := 0; i < n; i++ {
-		o := pgen.CustomOpts{Format: formats[i%3], Seed: e.Seed*977 + int64(i), WrapMode: []string{"none", "wrapErrors", "using"}[(i/3)%3], WrapLevel: []string{"conv", "cli"}[(i/9)%2]}
+		o := pgen.CustomOpts{Format: formats[i%3], Seed: e.Seed*977 + int64(i), WrapMode: []string{"none", "wrapErrors", "using"}[(i/3)%3], WrapLevel: []string{"conv", "cli", "meth"}[(i/9)%3]}
 		if mod != nil {
 			mod(i, &o)
 		}
